@@ -52,13 +52,17 @@ func runConf(c ConfCase) (evid.Result, error) {
 	var sum uint64
 	for i, cl := range cleaners {
 		l := cl.SizeLimit()
+		if l == 0 {
+			// cache.Cleaner takes the limit 0 for "no limit": Cleanup returns at once, Rotate never rotates
+			return res, evid.Failf("limit-zero-means-unbounded", "cache size %d MB, fraction size %d MB, sorted-docs cache %d bytes: cleaner %q gets the limit 0, which the cleaner reads as unlimited", c.CacheMB, c.FracMB, cfg.SortCacheSize, labels[i])
+		}
 		if l > cfg.CacheSize {
 			return res, evid.Failf("limit-above-cache-size", "cache size %d MB, fraction size %d MB, sorted-docs cache %d bytes: cleaner %q gets the limit %d, above the whole cache size %d", c.CacheMB, c.FracMB, cfg.SortCacheSize, labels[i], l, cfg.CacheSize)
 		}
 		sum += l
 		res.Evals++
 	}
-	if sum > cfg.CacheSize {
+	if sum > cfg.CacheSize+uint64(len(cleaners)) { // a cleaner needs a limit of at least one byte (0 means unlimited)
 		return res, evid.Failf("limits-exceed-cache-size", "cache size %d MB, fraction size %d MB, sorted-docs cache %d bytes: the cleaners' limits add up to %d, the cache size is %d", c.CacheMB, c.FracMB, cfg.SortCacheSize, sum, cfg.CacheSize)
 	}
 	if float64(cfg.SortCacheSize) > 0.9*float64(cfg.CacheSize) {
